@@ -61,6 +61,9 @@ CHECKS["C11"] = dict(cat="fault_enumeration", engine="K-crash-enumeration", tech
    note="Process death (kill -9) at Python-call / DB-operation granularity; not power loss, no torn sectors; SQLite's own atomicity is trusted. sys.setprofile c_return is used to reach "
         "the state right after a C call returns. Default schedule, one session.",
    ref="DESIGN.md section 4 C11")
+CHECKS["C17"] = H("C17", "All histories up to the depth bound of CREATE/DELETE/RENAME/SUBSCRIBE/UNSUBSCRIBE/SELECT/APPEND/RESTART over a 10-name alphabet (nesting 3, space, '+', '[ ]', "
+   "inbox/s, a SPECIAL-USE name); after every history LIST and LSUB for 14 (reference, pattern) pairs are compared with a namespace model whose wildcard matching is written "
+   "from the definition, mailboxes are probed for selectability, renamed subtrees are compared message by message, and a refused command must leave folder tree and database identity rows unchanged.")
 NOT_YET = {}
 
 def main():
